@@ -16,6 +16,13 @@ def run(check):
     check.guarded("KEPT-IN-PLACE", X.rule_kept_in_place)
     from . import c06 as _c06
     check.guarded("DECLARE-SCOPE", _c06.rule_declare_scope)
+    # the operand handler leaves a nested `+` in place without reporting it, on the assumption that the
+    # visitor has already turned every non-literal sum below into a hook call: any extra condition on the
+    # dispatch of the transforms (a depth limit, a size limit) breaks that assumption
+    from . import c04 as _c04
+    from ..engine import Only as _Only2
+    check.rule("DISPATCH-GATES", "the transforms are dispatched under their documented gates only (operator enabled, node kind, `+` / `+=`, instrumentable template): an additional condition leaves operations uninstrumented that the hooks of the enclosing operations assume instrumented (their operands are then neither hoisted nor reported)")
+    check.guarded("DISPATCH-GATES", lambda c: _c04.rule_dispatch(_Only2(c, "TRAV-DISPATCH", "DISPATCH-GATES", ("/extra-gate", "/gate", "/FLOOR/"))))
     # every temporary a hook call uses is declared by the `let` of the block whose visitor created it
     from ..engine import Only as _Only
     check.rule("DECLARE-PATH", "the registered temporaries of a block's provider are exactly what the `let` injected into that block declares (an undeclared or shared temporary is a ReferenceError in strict code or a value clobbered by another activation)")
